@@ -27,6 +27,27 @@ for tc in ET.parse(xml).getroot().iter('testcase'):
         passed.add('%s::%s' % (tc.get('classname'), tc.get('name')))
 os.remove(xml)
 missing = sorted(want - passed)
+if missing and jobs != '0' and len(missing) <= 20:
+    # tests that fail only under xdist scheduling are re-run serially before being reported
+    ids = []
+    for m in missing:
+        cls, name = m.split('::', 1)
+        parts = cls.split('.')
+        # module path is the longest prefix that is a file
+        for k in range(len(parts), 0, -1):
+            f = os.path.join(tree, *parts[:k]) + '.py'
+            if os.path.exists(f):
+                ids.append('::'.join([os.path.join(*parts[:k]) + '.py'] + parts[k:] + [name]))
+                break
+    fd, xml2 = tempfile.mkstemp(suffix='.xml', dir='/dev/shm'); os.close(fd)
+    subprocess.run(['/venv/bin/python', '-m', 'pytest', '-q', '-p', 'no:cacheprovider', '--junitxml=' + xml2] + ids,
+                   cwd=tree, env=env, stdout=subprocess.PIPE, stderr=subprocess.STDOUT, text=True)
+    for tc in ET.parse(xml2).getroot().iter('testcase'):
+        if not any(ch.tag in ('failure', 'error', 'skipped') for ch in tc):
+            passed.add('%s::%s' % (tc.get('classname'), tc.get('name')))
+    os.remove(xml2)
+    print('re-ran serially: %s' % ', '.join(ids))
+    missing = sorted(want - passed)
 print(p.stdout.strip().splitlines()[-1])
 print('stable_pass=%d passed_of_those=%d missing=%d' % (len(want), len(want & passed), len(missing)))
 for m in missing[:30]:
